@@ -1,7 +1,7 @@
 """C12 - the simulation clock is strictly increasing and covers exactly business days (DESIGN C12: S1..S3)."""
 from .. import terms as T
 from ..lib import summarise, heap_writes, V, A, normal, raising, cond_str, writers_of_attr, time_of_day, time_of_day_ext, datetime_base, no_inline, kw
-from ..symex import Valuation, SymEx, default_policy
+from ..symex import Valuation, SymEx, default_policy, Undecided
 from ..terms import fmt, ZERO, num
 
 CLS = 'DailyBusinessDaySimulationEngine'
@@ -38,6 +38,18 @@ def day_relative_stamp(ts, day):
     """ts == midnight(day) + Timedelta(h, m)  ->  (h, m) when the midnight is exact, ('inexact', what) when the day keeps part of its own time of day, None if not of this form"""
     from .. import terms as T
     base, off = ts, (0, 0)
+    inner = ts[2][0] if ts[0] == 'call' and ts[1] == ('ext', 'pandas.Timestamp') and ts[2] else ts
+    if inner[0] == 'call' and inner[1] == ('ext', 'datetime.datetime.combine') and len(inner[2]) == 2 and not inner[3]:
+        # combine(<the day's date>, <time of day>): the date drops the day's own clock completely; a literal time(h, m) is exact, the day's own .time() is what the
+        # day inherited from the start of the range
+        d_, t_ = inner[2]
+        if d_ == ('call', ('meth', 'date'), (day,), ()):
+            if t_[0] == 'call' and t_[1] == ('ext', 'datetime.time') and all(a_[0] == 'num' for a_ in t_[2]) and not t_[3]:
+                hm = [int(a_[1]) for a_ in t_[2]] + [0, 0, 0, 0]
+                return (hm[0], hm[1]) if not any(hm[2:]) else ('inexact', 'time(%s) carries seconds' % ', '.join(map(str, hm[:4])))
+            if t_ in (('call', ('meth', 'time'), (day,), ()), ('call', ('meth', 'timetz'), (day,), ())):
+                return ('inexact', 'the event is stamped with the day\'s own time of day, which the days inherit from the start of the range')
+        return None
     if ts[0] == 'rat':
         deltas = [s_ for s_ in T.subterms(ts) if s_[0] == 'call' and s_[1][0] == 'ext' and s_[1][1] in ('pandas.Timedelta', 'datetime.timedelta')]
         if len(deltas) != 1 or time_of_day(deltas[0]) is None:
@@ -62,6 +74,20 @@ def day_relative_stamp(ts, day):
             return ('inexact', 'replace(hour=0, minute=0) leaves the %s of the start\'s time of day in every stamp' % '/'.join(missing))
         return off
     return None
+
+
+_SOUND_MEMOS = set()
+
+
+def _dedupe_seqs(seqs, memos):
+    """body paths of the day loop that differ only in whether a sound memo already held the stamp yield the same events: keep, of each, the one that computes"""
+    best = {}
+    for seq, cond in seqs:
+        names = tuple(a for a, b, c in seq)
+        score = sum(1 for a, b, c in seq if b is not None)
+        if names not in best or score > best[names][0]:
+            best[names] = (score, seq, cond)
+    return [(seq, cond) for _, seq, cond in best.values()]
 
 
 def clock_events(ctx):
@@ -148,6 +174,24 @@ def check(ctx):
             ctx.sample({'rule': 'C12.S1', 'business_days': fmt(w[0].value)})
         for f_, name in (('pre_market', 'pre_market'), ('post_market', 'post_market')):
             x = heap_writes(p, f_)
+            getter = ctx.cls(CLS).lookup(f_)
+            if not x and getter is not None and getter.is_property:
+                # the flag is kept somewhere else and read back through a property of the same name: what the property answers right after construction
+                try:
+                    from ..symex import State
+                    st_ = State()
+                    st_.heap = dict(p.heap)
+                    vals = [q.value for q in SymEx(ctx.M, policy=default_policy).run(getter, self_term=V('self'), state=st_) if q.outcome == 'return']
+                except Undecided as u:
+                    vals = []
+                if len(vals) == 1 and vals[0] == V(name):
+                    ctx.holds('C12.S2', 'the %s flag is the constructor argument (read back through the property)' % name, getter.site())
+                elif len(vals) == 1 and not any(s_[0] in ('attr', 'sub', 'call', 'havoc') for s_ in T.subterms(vals[0])):
+                    ctx.violation('C12.S2', 'the %s flag is the constructor argument' % name, getter.site(), 'after construction the property answers %s' % fmt(vals[0])[:80],
+                                  key='C12.S2|flag|%s' % name)
+                else:
+                    ctx.undecided('C12.S2', 'the %s flag is the constructor argument' % name, getter.site(), 'kept outside a field of that name: %s' % [fmt(v_)[:60] for v_ in vals][:2])
+                continue
             ctx.require(len(x) == 1 and x[0].value == V(name), 'C12.S2', 'the %s flag is the constructor argument' % name, x[0].site if x else None, key='C12.S2|flag|%s' % name)
     # the event object carries the instant it was given
     for ip in summarise(ctx, 'SimulationEvent.__init__', policy=default_policy):
@@ -168,6 +212,22 @@ def check(ctx):
             continue
         ctx.require(outs == want, 'C12.S3', 'an end %s the start %s' % ({'<': 'earlier than', '=': 'equal to', '>': 'later than'}[rel], 'is rejected with ValueError' if exp == 'raise' else 'is accepted'),
                     fn.site(), 'outcomes %s%s' % (sorted(outs), (' (also depends on %s)' % sorted(set(val.unknown))[:3]) if val.unknown else ''), key='C12.S3|%s' % rel)
+    # ---- memoised stamps: a table of the clock filled inside the day loop must be keyed by everything that identifies the stamp
+    _SOUND_MEMOS.clear()
+    try:
+        from ..lib import memo_tables
+        itfn = ctx.fn(CLS + '.__iter__')
+        itps = summarise(ctx, itfn, policy=default_policy)
+        for m_, vd in sorted(memo_tables(ctx, itfn, itps).items()):
+            if vd[0] == 'unsound':
+                ctx.violation('C12.S2', 'the clock hands out a remembered timestamp (self.%s) only for the day and time it was built for' % m_, itfn.site(),
+                              'the memo is keyed by %s but the stored stamp also depends on %s: another day with the same key is given the remembered stamp'
+                              % (fmt(vd[1])[:100], ', '.join(vd[2])), key='C12.S2|memo-key|%s' % m_)
+            elif vd[0] == 'sound':
+                ctx.holds('C12.S2', 'the clock hands out a remembered timestamp (self.%s) only for the day and time it was built for (key %s)' % (m_, fmt(vd[1])[:80]), itfn.site())
+                _SOUND_MEMOS.add(m_)
+    except Undecided:
+        pass
     # ---- S2: event order per day, for every flag combination
     table, facts = clock_events(ctx)
     shape_known = not any(kind in ('shape', 'iter') and not ok for kind, what, ok, where in facts)
@@ -184,6 +244,18 @@ def check(ctx):
     for (pre, post), seqs in table.items():
         exp = [x for x in full if (x[0] != 'pre_market' or pre) and (x[0] != 'post_market' or post)]
         where = ctx.fn(CLS + '.__iter__').site()
+        if len(seqs) > 1 and _SOUND_MEMOS:
+            # a remembered stamp equals the one computed the first time (memo judged sound below): the paths that answer from the memo repeat the computing ones
+            seqs = _dedupe_seqs(seqs, _SOUND_MEMOS)
+        if len(seqs) > 1:
+            # which events a day gets is decided by stored state other than the two flags (a set of enabled events computed when the flags were set, ...): how that
+            # state follows the flags is the constructor's and the setters' business - not related here (a setter that forgets to recompute it is the stale-value rule's)
+            iterp = summarise(ctx, CLS + '.__iter__', policy=default_policy)
+            flds = sorted({s_[2] for q in iterp for e_ in q.events if e_.kind == 'loop' for b_ in e_.paths for c_, _, _ in b_.conds for s_ in T.subterms(c_)
+                           if s_[0] == 'attr' and s_[1] == V('self') and s_[2] not in ('pre_market', 'post_market', 'business_days')})
+            if flds:
+                ctx.undecided('C12.S2', 'events of a day are decided by the two flags alone (pre=%s, post=%s)' % (pre, post), where, 'the yields are selected by self.%s' % ', self.'.join(flds))
+                continue
         if not ctx.require(len(seqs) == 1, 'C12.S2', 'events of a day are decided by the two flags alone (pre=%s, post=%s)' % (pre, post), where,
                            'the yields also depend on: %s' % [c for s, c in seqs][:3], key='C12.S2|flags-only'):
             continue
